@@ -7,7 +7,7 @@ Protected by Parallel._lock: tracker.status transitions, Parallel._jobs / _jobs_
 import z3
 
 from pyvc import ops
-from pyvc.contracts import Contract, Loop
+from pyvc.contracts import Contract, Loop, SourceModule
 from pyvc.interp import BUILTIN_EXC, PyRaise
 from pyvc.pack import Pack
 from pyvc.values import (
@@ -578,6 +578,61 @@ def build():
             ensures={"what_the_wrapper_captured_is_unwrapped": "is_tag(result, 'unwrapped')"},
             ensures_body={"unwrapped_once_untouched": "n_events('unwrap') == 1 and is_tag(ev_named('unwrap')[0][1], 'poolresult')"},
         ))
+    # ---- the default backend (loky): submit hands exactly this batch to the executor once and attaches the completion callback to its
+    # future (a done-callback fires on success, on error and on cancellation alike); retrieve_result_callback returns the future's result or
+    # raises ITS exception - the task's own (C04) - and turns the executor-level ShutdownExecutorError into the documented RuntimeError;
+    # terminate keeps the workers but gives back the temporary resources of THIS Parallel object only
+    def executor_submit(interp, recv, args, kwargs):
+        interp.ctx.events.append(("executor.submit", args[0]))
+        return Opaque("future", None)
+
+    def add_done_callback(interp, recv, args, kwargs):
+        interp.ctx.events.append(("add_done_callback", recv, args[0]))
+
+    def future_result(interp, recv, args, kwargs):
+        k = interp.ctx.choose(3, "future-outcome")
+        interp.ctx.events.append(("future.result", recv))
+        if k == 1:
+            e = SExc(BUILTIN_EXC["ValueError"], ())
+            interp.ctx.ghost["TASK_EXC"] = e
+            raise PyRaise(e)
+        if k == 2:
+            interp.ctx.ghost["EXECUTOR_SHUT_DOWN"] = True
+            raise PyRaise(SExc(interp.global_lookup("ShutdownExecutorError", SourceModule.get(PB)), ()))
+        return Opaque("batchresults", None, of=recv)
+
+    p.models["executor.submit"] = executor_submit
+    p.models["future.add_done_callback"] = add_done_callback
+    p.models["future.result"] = future_result
+    p.models["LokyBackend.reset_batch_stats"] = lambda i, r, a, k: i.ctx.events.append(("reset_batch_stats",))
+    p.models["tmpmanager._clean_temporary_resources"] = lambda i, r, a, k: i.ctx.events.append(("clean", k.get("context_id"), k.get("force")))
+    p.spec_funcs["same_exc"] = lambda interp, e: e is interp.ctx.ghost.get("TASK_EXC")
+    p.spec_funcs["executor_shut_down"] = lambda interp: bool(interp.ctx.ghost.get("EXECUTOR_SHUT_DOWN"))
+    p.add(Contract(
+        PB, "LokyBackend.submit", props=["C04", "C01"],
+        params=dict(self=ObjOf("LokyBackend", _workers=OpaqueOf("executor")), func=OpaqueOf("batchfn"), callback=Opt(OpaqueOf("cb"))),
+        ensures={"returns_the_future_of_this_batch": "is_tag(result, 'future')"},
+        ensures_body={"this_batch_is_handed_over_exactly_once": "n_events('executor.submit') == 1 and ev_named('executor.submit')[0][1] is func",
+                      "completion_callback_attached_to_that_future": "n_events('add_done_callback') == (0 if callback is None else 1) and "
+                                                                     "implies(callback is not None, ev_named('add_done_callback')[0][1] is result and ev_named('add_done_callback')[0][2] is callback)"},
+    ))
+    p.add(Contract(
+        PB, "LokyBackend.retrieve_result_callback", props=["C04", "C01"],
+        params=dict(self=ObjOf("LokyBackend", _workers=OpaqueOf("executor")), future=OpaqueOf("future")),
+        ensures={"the_results_of_that_future": "is_tag(result, 'batchresults') and result.of is future"},
+        ensures_body={"asked_once": "n_events('future.result') == 1"},
+        exsures={"ValueError": {"the_tasks_own_exception": "same_exc(exc)"},
+                 "RuntimeError": {"only_for_an_executor_that_was_shut_down": "executor_shut_down()"}},
+    ))
+    p.add(Contract(
+        PB, "LokyBackend.terminate", props=["C04", "C20"],
+        params=dict(self=lambda i: ObjOf("LokyBackend", _workers=Opt(OpaqueOf("executor", _temp_folder_manager=OpaqueOf("tmpmanager"))),
+                                          parallel=Opaque("par", None, _id=STR.fresh(i.ctx, "pid"))).fresh(i.ctx, "self")),
+        ensures={"workers_released_not_killed": "self._workers is None"},
+        ensures_body={"only_this_objects_temporaries_are_given_back_gently": "n_events('clean') == (1 if old(self._workers) is not None else 0) and "
+                                                                             "implies(n_events('clean') == 1, ev_named('clean')[0][1] is self.parallel._id and ev_named('clean')[0][2] is False)",
+                      "executor_left_alive_for_reuse": "n_events('executor.terminate') == 0"},
+    ))
     p.add(Contract(
         PB, "LokyBackend.abort_everything", props=["C04"],
         params=dict(self=ObjOf("LokyBackend", _workers=OpaqueOf("executor"), parallel=par_obj), ensure_ready=OneOf(True, False)),
